@@ -12,9 +12,18 @@ Theorem C11_appends_firstn : forall df out, appends df out ->
   firstn (length df) out = df /\ Forall (fun c : column => length (snd c) = nrows df) (skipn (length df) out).
 Proof. exact appends_firstn. Qed.
 
-(* ---- each of the five constructors only appends ---- *)
-Theorem C11_append_multivalue : forall perm df missing feats out,
-  wf df -> multivalue perm df missing feats = Some out -> appends df out.
+(* ---- each of the five constructors only appends ----
+   READ THIS FIRST.  The five statements below hold *by construction of the model*: every constructor is transcribed as
+   [df ++ <new columns>], and the transformer / noise columns are [map f (seq 0 (nrows df))].  They say that the transcription
+   has the shape the property demands and that the rule-derived columns have one cell per row (the only content: lengths, under
+   [wf df] and the configuration naming existing columns); they do NOT prove that pandas' [pd.concat(axis=1)] aligns rows,
+   keeps dtypes or that a transformer returns an array of the right length — that part of the clause is modelled away.
+   For the real code the clause "only appends; originals, values and row order preserved; one value per row" is carried by
+   the checker [append_okb], proved sound below (C11_append_checker_sound), which the harness evaluates on every frame the
+   implementation returns (RangeIndex string frames, which is all compute_batch_ranking ever builds; behaviour on other row
+   indexes is recorded as an observation per constructor, see notes/C11.md). *)
+Theorem C11_append_multivalue : forall df missing feats out,
+  wf df -> multivalue df missing feats = Some out -> appends df out.
 Proof. exact multivalue_appends. Qed.
 
 Theorem C11_append_subfeatures : forall df ops out, wf df -> subfeatures df ops = Some out -> appends df out.
@@ -36,8 +45,8 @@ Proof. exact run_steps_appends. Qed.
 
 (* ... in particular the sequence compute_batch_ranking runs, for every setting of the construction flags,
    every hash, transformer outcome, random draw and sampler behaviour *)
-Theorem C11_batch : forall h T rnd sample perm cfg df out,
-  wf df -> batch_construct h T rnd sample perm cfg df = Some out -> appends df out /\ wf out.
+Theorem C11_batch : forall h T rnd sample cfg df out,
+  wf df -> batch_construct h T rnd sample cfg df = Some out -> appends df out /\ wf out.
 Proof. exact batch_appends. Qed.
 
 (* ---- multi-value expansion ---- *)
@@ -47,21 +56,19 @@ Theorem C11_tokens : forall v,
   forall t, In t (tokens v) -> ~ In DASH t.
 Proof. exact tokens_spec. Qed.
 
-(* one column MULTIEX-f-t per distinct non-missing token t occurring in f, and it is t's indicator column;
-   [perm] is the iteration order of the Python set of tokens: any reordering ([perm_ok]) *)
-Theorem C11_multivalue : forall perm df missing feats out f t, perm_ok perm ->
-  multivalue perm df missing feats = Some out -> In f feats -> ~ In DASH t ->
+(* one column MULTIEX-f-t per distinct non-missing token t occurring in f, and it is t's indicator column
+   (the columns of one feature are emitted in sorted token order, as the code does since b8c228d; the statement below
+   does not depend on the order) *)
+Theorem C11_multivalue : forall df missing feats out f t,
+  multivalue df missing feats = Some out -> In f feats -> ~ In DASH t ->
   ((exists col, In (mv_name f t, col) (skipn (length df) out)) <->
    (~ In t missing /\ exists v, In v (getcol df f) /\ In t (tokens v))) /\
   (forall col, In (mv_name f t, col) (skipn (length df) out) -> col = mv_column (getcol df f) t).
 Proof. exact multivalue_rule. Qed.
 
-Theorem C11_multivalue_names_distinct : forall perm df missing feats out,
-  multivalue perm df missing feats = Some out -> NoDup (names (skipn (length df) out)).
+Theorem C11_multivalue_names_distinct : forall df missing feats out,
+  multivalue df missing feats = Some out -> NoDup (names (skipn (length df) out)).
 Proof. exact multivalue_names_nodup. Qed.
-
-Theorem C11_observed_order_admissible : forall table, perm_ok (order_for table).
-Proof. exact order_for_ok. Qed.
 
 (* the indicator: "1" exactly on rows whose delimited value contains the token, "" on the others *)
 Theorem C11_multivalue_cell : forall vec t i v, nth_error vec i = Some v ->
@@ -139,7 +146,6 @@ Print Assumptions C11_tokens.
 Print Assumptions C11_multivalue.
 Print Assumptions C11_multivalue_names_distinct.
 Print Assumptions C11_multivalue_cell.
-Print Assumptions C11_observed_order_admissible.
 Print Assumptions C11_sub_columns.
 Print Assumptions C11_sub_one_columns.
 Print Assumptions C11_sub_one.
